@@ -86,7 +86,7 @@ check("C14", "enum",
 check("C17", "enum+dfs",
       "exhaustive enumeration of every rooted tree shape (<=8 quick / <=10 thorough nodes) x every tip x all node pairs/heights/locators/stops/maxima against naive parent walks, deep two-branch families for the skip list, and a path-sharing DFS over every interleaving of header and block deliveries on real chains",
       "Ancestor/FindFork/locators/LocateBlocks/LocateHeaders/HeightRange/IntervalBlockHashes/HeightToHashRange and the chain-view API on index-only chains; on real lab chains BestHeader, IsValidHeader, HeaderHashByHeight, BestChainHeaderForkHeight, refusal of headers below an invalid block, and equality of the final chain with a blocks-only delivery. Reference bound to the doc-comment examples and the TestLocateInventory/TestHeightToHashRange vectors.",
-      "Part (b): trees <=4 (quick; plus the 5-block configurations where the invalid block has a descendant two levels below it and a competing branch, and the K+1 reorganisation-failure family) / <=5 (thorough) blocks, one kind of invalid block, block deliveries parents-first or while the parent is known by header only (orphan pool); worlds with equal and with mixed per-block difficulty (most work != most blocks).",
+      "Part (b'): manual invalidation probes (every tree <= K blocks x knowledge vector x invalidated node: headers below it refused, accepted again after ReconsiderBlock). Part (b): trees <=4 (quick; plus the 5-block configurations where the invalid block has a descendant two levels below it and a competing branch, and the K+1 reorganisation-failure family) / <=5 (thorough) blocks, one kind of invalid block, block deliveries parents-first or while the parent is known by header only (orphan pool); worlds with equal and with mixed per-block difficulty (most work != most blocks).",
       "DESIGN.md §4 C17")
 
 check("C06", "enum",
